@@ -408,6 +408,12 @@ def space_algebra(res, on_v):
             if list(Pm.items()) != expm or Pm.dim != A.dim + B2.dim:
                 on_v("C12|space|product-merge", "Space(%s)*Space(%s with dims %s) = %s (dim %s), expected %s" % (
                     a, b, [VARS2[v] for v in b], list(Pm.items()), Pm.dim, expm), None, [])
+            # a space with a shared name of LARGER dimension is not a sub-space (Space is a multiset of dimensions:
+            # a smaller dimension under the same name does count as contained, which is the library's stated design)
+            if b and all(v in a for v in b) and any(VARS2[v] > VARS[v] for v in b):
+                if B2 in A:
+                    on_v("C12|space|subspace-ignores-dims", "Space(%s with dims %s) in Space(%s with dims %s) is True" % (
+                        b, [VARS2[v] for v in b], a, [VARS[v] for v in a]), None, [])
             if set(a).isdisjoint(b):
                 Pr = A * B
                 if list(Pr.items()) != [(v, VARS[v]) for v in a + b]:
